@@ -27,6 +27,9 @@ func init() {
 			Trusted:     commonTrusted,
 		},
 		Mutants: []Mutant{
+			{Name: "Multi.Open gives up at the first loader that reports another error than not-exist (agent seed C19/2)", File: "loaders/multi/multi.go", Old: "\t\tif f, err := loader.Open(name); err == nil {\n\t\t\treturn f, nil\n\t\t}\n", New: "\t\tf, err := loader.Open(name)\n\t\tif err == nil {\n\t\t\treturn f, nil\n\t\t}\n\t\tif !os.IsNotExist(err) {\n\t\t\treturn nil, err\n\t\t}\n", Rule: "C19.multi"},
+			{Name: "normalize cleans before rooting, so ../x keeps its dots (agent seed C19/1)", File: "loader.go", Old: "\ttemplatePath = filepath.ToSlash(templatePath)\n\treturn path.Join(\"/\", templatePath)", New: "\ttemplatePath = path.Clean(filepath.ToSlash(templatePath))\n\tif !path.IsAbs(templatePath) {\n\t\ttemplatePath = \"/\" + templatePath\n\t}\n\treturn templatePath", Rule: "C19.inmem"},
+			{Name: "equivalent: normalize as path.Clean(\"/\" + ToSlash(p))", File: "loader.go", Old: "\ttemplatePath = filepath.ToSlash(templatePath)\n\treturn path.Join(\"/\", templatePath)", New: "\ttemplatePath = filepath.ToSlash(templatePath)\n\treturn path.Clean(\"/\" + templatePath)", Rule: "-"},
 			{Name: "OS loader Open forgets FromSlash", File: "loader.go", Old: "return os.Open(filepath.Join(l.dir, filepath.FromSlash(templatePath)))", New: "return os.Open(filepath.Join(l.dir, templatePath))", Rule: "C19.agree"},
 			{Name: "OS loader Exists accepts directories", File: "loader.go", Old: "if err == nil && !stat.IsDir() {", New: "if err == nil && stat != nil {", Rule: "C19.dir"},
 			{Name: "httpfs Exists accepts directories (original defect)", File: "loaders/httpfs/loader.go", Old: "return err == nil && !stat.IsDir()", New: "return err == nil && stat != nil", Rule: "C19.dir"},
@@ -278,8 +281,9 @@ func inmemRules(c *an.Ctx) {
 	okNorm := false
 	an.InspectOwn(norm, func(n ast.Node) bool {
 		if ret, ok := n.(*ast.ReturnStmt); ok && len(ret.Results) == 1 {
-			if got := an.Norm(norm, ret.Results[0]); got == `path.Join("/", filepath.ToSlash($p0))` {
-				okNorm = true
+			switch an.Norm(norm, ret.Results[0]) {
+			case `path.Join("/", filepath.ToSlash($p0))`, `path.Clean(("/" + filepath.ToSlash($p0)))`:
+				okNorm = true // both root the slash-separated spelling and clean it; ".." cannot climb above "/"
 			}
 		}
 		return true
@@ -397,6 +401,31 @@ func multiRules(c *an.Ctx) {
 					}
 					// the element consulted is the range value
 					c.Check(first, "C19.multi", key+"/first-wins", ps.Pos(), "ranges front to back and returns at the first success", "the loop over the loaders does not return at the first success: a later loader can win")
+					// a failure of one loader must not end the search: every return inside the loop is a success return
+					giveUp := token.NoPos
+					ast.Inspect(ps.Body, func(m ast.Node) bool {
+						if _, isLit := m.(*ast.FuncLit); isLit {
+							return false
+						}
+						ret, isRet := m.(*ast.ReturnStmt)
+						if !isRet || len(ret.Results) == 0 {
+							return true
+						}
+						last := an.Unparen(ret.Results[len(ret.Results)-1])
+						success := false
+						if id, isId := last.(*ast.Ident); isId && (id.Name == "nil" || id.Name == "true") {
+							success = true
+						}
+						if !success {
+							giveUp = ret.Pos()
+						}
+						return true
+					})
+					if giveUp.IsValid() {
+						c.Bad("C19.multi", key+"/keeps-looking", giveUp, nil, "%s returns a failure from inside the loop over the loaders: a loader that does not have the path (or fails) hides the later loaders that do", f.Name)
+					} else {
+						c.OK("C19.multi", key+"/keeps-looking", ps.Pos(), "a loader that fails does not end the search")
+					}
 					return true
 				}
 			case *ast.AssignStmt:
